@@ -711,6 +711,49 @@ Hypothesis bits_ge2 : (1 <= bits)%nat.
    compressor satisfying the round-trip law, the loaded signal reports exactly the recorded values:
    each with its time table index, the least kind that holds it and its characters, consecutive equal
    values reported once *)
+(* the loaded signal itself: its time indices and bytes are the widened entries of the de-duplicated recorded list *)
+Theorem storage_loaded_shape tpes ops e blocks ttb :
+  nth_error tpes id = Some (EncBits bits) ->
+  Forall (op_ok id bits) ops ->
+  N.of_nat (count_vcd id ops) * (10 + N.of_nat bits) < 4294967264 ->
+  run_ops parse_f64 lz_compress cap (enc_new tpes) ops = Ok e ->
+  enc_finish lz_compress e = Ok (blocks, ttb) ->
+  N.of_nat (length ttb) < 4294967296 ->
+  exists R mx,
+    Forall2 (decodes bits) R (recorded id ops [] false) /\ Forall (rok bits mx) R /\
+    load_signal lz_decompress blocks id (EncBits bits)
+    = Ok (mk_signal (map fst (map (wide_of mx bits) (dedup R)))
+                    (SigBits mx bits (snd (get_len_and_meta mx bits)) (bpe_of mx bits)
+                             (concat (map snd (map (wide_of mx bits) (dedup R)))))).
+Proof.
+  intros Htp Hops Hbud Hrun Hfin Hlen.
+  destruct (run_ops_sinv parse_f64 lz_compress cap cap_pos cap_u16 id bits bits_ge2 ops _ [] [] [] e
+              (sinv_new lz_compress cap cap_pos cap_u16 id bits bits_ge2 tpes Htp) Hops ltac:(cbn [length Nat.add]; exact Hbud) Hrun)
+    as (bl & es & R & Hs & Hrec).
+  cbn [app] in Hs. change (table (enc_new tpes)) with (@nil N) in Hrec. cbn [enc_new e_skip] in Hrec.
+  assert (HlenR : (length R <= count_vcd id ops)%nat).
+  { rewrite (forall2_length _ _ _ Hrec). apply recorded_length. }
+  destruct (finish_sinv parse_f64 lz_compress cap cap_pos cap_u16 id bits bits_ge2 e bl es R blocks ttb Hs ltac:(nia) Hfin) as (bl' & -> & Hok & Habs & Hbl).
+  destruct (load_signal_blocks lz_compress lz_decompress lz_ok id bits bl' bits_ge2 Hok) as (mx & Hmx & Hload).
+  exists R, mx. split; [exact Hrec|].
+  assert (Hrok : Forall (rok bits mx) R).
+  { pose proof (si_rec _ _ _ _ _ _ _ _ Hs) as Hr. rewrite Forall_forall in *. intros a Ha. split; [now apply Hr|].
+    destruct a as [[g l] s]. cbn [fst snd].
+    assert (Hin : In (g, l, write_n_state_loop l s 0 None) (blocks_abs bl' 0)).
+    { rewrite Habs. change (g, l, write_n_state_loop l s 0 None) with (pack3 (g, l, s)). now apply in_map. }
+    destruct (blocks_abs_in bl' 0 _ _ _ Hin) as (x & Hx & Hd).
+    specialize (Hok x Hx). specialize (Hmx x Hx). destruct x as [[[[sg st] tb] se] es'].
+    destruct Hd as [d Hd]. destruct Hok as (_ & _ & Hwf & _). rewrite Forall_forall in Hwf.
+    specialize (Hwf _ Hd). destruct Hwf as [(_ & Hle & _) _].
+    assert (es' <> []) by (intros ->; destruct Hd). specialize (Hmx H). lia. }
+  split; [exact Hrok|]. rewrite Hload.
+  rewrite blks_spec_fold by (rewrite Hbl; lia). rewrite Habs.
+  replace (map (wide3 mx bits) (map pack3 R)) with (map (wide_of mx bits) R)
+    by (rewrite map_map; apply map_ext; intros [[g l] s]; reflexivity).
+  pose proof (push_canon_dedup bits bits_ge2 mx R [] Hrok ltac:(constructor)) as Hd.
+  cbn [map app last_opt option_map] in Hd. rewrite Hd. reflexivity.
+Qed.
+
 Theorem storage_transparent tpes ops e blocks ttb :
   nth_error tpes id = Some (EncBits bits) ->
   Forall (op_ok id bits) ops ->
@@ -724,30 +767,8 @@ Theorem storage_transparent tpes ops e blocks ttb :
     observe_signal sig = outcome_map render_of (dedup R).
 Proof.
   intros Htp Hops Hbud Hrun Hfin Hlen.
-  destruct (run_ops_sinv parse_f64 lz_compress cap cap_pos cap_u16 id bits bits_ge2 ops _ [] [] [] e
-              (sinv_new lz_compress cap cap_pos cap_u16 id bits bits_ge2 tpes Htp) Hops ltac:(cbn [length Nat.add]; exact Hbud) Hrun)
-    as (bl & es & R & Hs & Hrec).
-  cbn [app] in Hs. change (table (enc_new tpes)) with (@nil N) in Hrec. cbn [enc_new e_skip] in Hrec.
-  assert (HlenR : (length R <= count_vcd id ops)%nat).
-  { rewrite (forall2_length _ _ _ Hrec). apply recorded_length. }
-  destruct (finish_sinv parse_f64 lz_compress cap cap_pos cap_u16 id bits bits_ge2 e bl es R blocks ttb Hs ltac:(nia) Hfin) as (bl' & -> & Hok & Habs & Hbl).
-  destruct (load_signal_blocks lz_compress lz_decompress lz_ok id bits bl' bits_ge2 Hok) as (mx & Hmx & Hload).
+  destruct (storage_loaded_shape tpes ops e blocks ttb Htp Hops Hbud Hrun Hfin Hlen) as (R & mx & Hrec & Hrok & Hload).
   exists R. eexists. split; [exact Hrec|]. split; [exact Hload|].
-  assert (Hrok : Forall (rok bits mx) R).
-  { pose proof (si_rec _ _ _ _ _ _ _ _ Hs) as Hr. rewrite Forall_forall in *. intros a Ha. split; [now apply Hr|].
-    destruct a as [[g l] s]. cbn [fst snd].
-    assert (Hin : In (g, l, write_n_state_loop l s 0 None) (blocks_abs bl' 0)).
-    { rewrite Habs. change (g, l, write_n_state_loop l s 0 None) with (pack3 (g, l, s)). now apply in_map. }
-    destruct (blocks_abs_in bl' 0 _ _ _ Hin) as (x & Hx & Hd).
-    specialize (Hok x Hx). specialize (Hmx x Hx). destruct x as [[[[sg st] tb] se] es'].
-    destruct Hd as [d Hd]. destruct Hok as (_ & _ & Hwf & _). rewrite Forall_forall in Hwf.
-    specialize (Hwf _ Hd). destruct Hwf as [(_ & Hle & _) _].
-    assert (es' <> []) by (intros ->; destruct Hd). specialize (Hmx H). lia. }
-  rewrite blks_spec_fold by (rewrite Hbl; lia). rewrite Habs.
-  replace (map (wide3 mx bits) (map pack3 R)) with (map (wide_of mx bits) R)
-    by (rewrite map_map; apply map_ext; intros [[g l] s]; reflexivity).
-  pose proof (push_canon_dedup bits bits_ge2 mx R [] Hrok ltac:(constructor)) as Hd.
-  cbn [map app last_opt option_map] in Hd. rewrite Hd.
   apply observe_entries; [exact bits_ge2|].
   rewrite Forall_forall in *. intros a Ha. apply dedup_by_in in Ha. specialize (Hrok a Ha).
   destruct a as [[g l] s]. destruct Hrok as [(H1 & H2 & _) H3]. cbn [fst snd] in *. repeat split; assumption.
